@@ -762,11 +762,16 @@ fn set_clocks(rng: &mut Rng, t: &mut TreeD, tin: u64, clocks: Clocks) -> bool {
             U32 - 1 - rng.below(span as u64) as u128
         } else {
             let max = U32 - 1 - span; // largest start without a wrap
-            match rng.below(6) {
+            match rng.below(8) {
                 0 => max,                                        // last latch = 0xFFFF_FFFF
                 1 => max - (rng.below(50) as u128).min(max),     // just below the wrap
                 2 => 0,
                 3 => rng.below(1000) as u128,                    // just after a wrap
+                // the latches of this device straddle 2^31 (a signed reading of the 32-bit times must not change
+                // their order; added after seed C17d), or sit just below / above it
+                4 if span > 0 => ((1u128 << 31) - 1 - rng.below(span as u64) as u128).min(max),
+                5 => ((1u128 << 31) - 1 - rng.below(2000) as u128).min(max),
+                6 => ((1u128 << 31) + rng.below(2000) as u128).min(max),
                 _ => rng.below(max as u64 + 1) as u128,
             }
         };
